@@ -523,6 +523,79 @@ def stream_histories(ck, count, nlo, nhi):
                 break
 
 
+# ------------------------------------------------------------------------------------------ fresh results
+def fresh_result_check(n, ne, spin, m, utd):
+    """call get_reference_circuit / get_vector / vector_to_circuit twice with the same arguments and modify the FIRST result in
+    place (an extra X gate, flipped entries) before the second call: the second result must be a distinct object sharing no
+    Gate with the first and must still prepare the requested occupations.  Returns (kind, description) or None."""
+    from tangelo.linq import Gate
+    from tangelo.toolboxes.qubit_mappings.statevector_mapping import get_reference_circuit, get_vector, vector_to_circuit
+    na, nb = admissible(n, ne, spin)
+    req = [0] * n
+    for k in range(n // 2):
+        req[2 * k], req[2 * k + 1] = int(k < na), int(k < nb)
+    fspin = 0 if spin is None else spin
+    call = "get_reference_circuit(%d, %d, %r, up_then_down=%s, spin=%s)" % (n, ne, m, utd, spin)
+    c1 = get_reference_circuit(n, ne, m, up_then_down=utd, spin=spin)
+    first = oracle_occupations(m, n, utd, ne, fspin, c1, req)
+    if first:
+        return "occupation", "%s: %s" % (call, first)
+    gates1 = [id(g) for g in c1._gates]
+    keep = list(c1._gates)                           # keeps the ids alive
+    if c1.width > 0:
+        c1.add_gate(Gate("X", target=0))             # a caller appending its own gates to the circuit it was given
+    c2 = get_reference_circuit(n, ne, m, up_then_down=utd, spin=spin)
+    if c2 is c1:
+        return "stale-result", "%s returns the SAME Circuit object on the second call (a caller's in-place change is seen by every later caller)" % call
+    if set(id(g) for g in c2._gates) & set(gates1):
+        return "stale-result", "%s: the second result shares Gate objects with the first" % call
+    second = oracle_occupations(m, n, utd, ne, fspin, c2, req)
+    if second:
+        return "stale-result", "%s called again after the first result was extended in place by X0: %s" % (call, second)
+    del keep
+    v1 = get_vector(n, ne, m, up_then_down=utd, spin=spin)
+    s1 = show_impl_vec(v1)
+    if len(v1):
+        v1[:] = 1 - v1
+    v2 = get_vector(n, ne, m, up_then_down=utd, spin=spin)
+    if v2 is v1 or show_impl_vec(v2) != s1:
+        return "stale-result", "get_vector(%d, %d, %r, up_then_down=%s, spin=%s) called again after the first result was flipped in place gives %s instead of %s" % (
+            n, ne, m, utd, spin, show_impl_vec(v2), s1)
+    d1 = vector_to_circuit(v2)
+    sd = show_circuit(d1)
+    if d1.width > 0:
+        d1.add_gate(Gate("X", target=0))
+    d2 = vector_to_circuit(v2)
+    if d2 is d1 or show_circuit(d2) != sd or set(id(g) for g in d2._gates) & set(id(g) for g in d1._gates):
+        return "stale-result", "vector_to_circuit(%s) called again after the first circuit was extended in place gives %s instead of %s" % (
+            s1, show_circuit(d2), sd)
+    return None
+
+
+def stream_fresh(ck, nmax):
+    st = "fresh-results"
+    ck.stream(st, "result freshness (implementation only): get_reference_circuit, get_vector and vector_to_circuit called twice "
+              "with the same arguments, the first result modified in place (X gate appended / entries flipped) before the second "
+              "call: the second result is a distinct object, shares no Gate with the first and prepares the requested "
+              "occupations; every admissible (n_electrons, spin incl. None) for even n = 2..%d, four mappings, both orderings; "
+              "non-trivial = 0 < electrons < n" % nmax)
+    for n in range(2, nmax + 1, 2):
+        for ne in range(0, n + 1):
+            for spin in [None] + list(range(-(n // 2), n // 2 + 1)):
+                if not admissible(n, ne, spin):
+                    continue
+                for m in MAPPINGS:
+                    for utd in (False, True):
+                        case = {"kind": "fresh", "n": n, "n_electrons": ne, "spin": spin, "mapping": m, "up_then_down": utd}
+                        try:
+                            bad = fresh_result_check(n, ne, spin, m, utd)
+                        except Exception as e:
+                            bad = ("exception", "%s raised %s: %s" % (case, type(e).__name__, str(e)[:120]))
+                        ck.case(st, json.dumps(case), nontrivial=0 < ne < n, tags=[m, "n=%d" % n, "utd" if utd else "alt"])
+                        if bad:
+                            ck.violation("C05/%s/%s/%s" % (m, bad[0], "utd" if utd else "alt"), bad[1], case, found_input=True)
+
+
 # ------------------------------------------------------------------------------------------ main
 def run(ck):
     from translator import encoding_tables
@@ -588,6 +661,7 @@ def run(ck):
     guarded("fillings", stream_fillings, 10 if quick else 16)
     guarded("vectors-random", stream_random, 120 if quick else 1500, 7 if quick else 11, 12 if quick else 20)
     guarded("operands", stream_inputs, 6 if quick else 7)
+    guarded("fresh-results", stream_fresh, 8 if quick else 12)
     guarded("histories", stream_histories, 150 if quick else 1200, 3, 8 if quick else 12)
     ck.notes["exhaustive"] = True
     ck.notes["exhaustive_domain"] = ("all 0/1 vectors of length <= %d and all (n_electrons, spin) grids for n <= %d, 4 "
@@ -632,6 +706,10 @@ def replay(data, quiet=False):
     if r.get("kind") == "input-form":
         bad = operand_check(r["vector"], r["form"], r["mapping"], r["up_then_down"])
         out("operand check:", bad)
+        return 1 if bad else 0
+    if r.get("kind") == "fresh":
+        bad = fresh_result_check(r["n"], r["n_electrons"], r["spin"], r["mapping"], r["up_then_down"])
+        out("fresh-result check:", bad)
         return 1 if bad else 0
     if r.get("kind") == "history":
         steps = [(m, utd) for m, utd in r["steps"]]
